@@ -1,6 +1,7 @@
 /- C01 handlers: bn_* layer. For each operation line the handler returns what the hand-written model
    says the implementation prints, and the set of outputs the specification (Int arithmetic) accepts. -/
 import Driver.Util
+import RelicVerif.Model.BnBit
 
 namespace Driver.C01
 open Relic.Model Driver
@@ -251,6 +252,27 @@ def handle (e : Env) (op : String) (args : List String) : Option Verdict :=
         | none => "err"
       some { model := m, spec := if d = 0 then ["err"] else specInt e a.used (Int.fdiv (a.toInt B) d) }
     | _ => none
+  | "bn_mod_dig" =>
+    -- class C (no digit model of its own: it is bn_div_rem_dig without the quotient): the non-negative remainder
+    match args with
+    | [_, a, d] => do
+      let a ← parseBn w a
+      let d ← parseHexNat d
+      let s := if d = 0 then "err" else natToHex (Int.fmod (a.toInt B) d).toNat
+      some { model := s, spec := [s], tags := ["mod_dig"] }
+    | _ => none
+  | "bn_mod_2b" =>
+    -- class C: a mod 2^b for a ≥ 0; for a < 0 the header does not say which representative: the truncated magnitude with the sign of a
+    -- (what the code does) and the non-negative residue are both admitted
+    match args with
+    | [_, a, k] => do
+      let a ← parseBn w a
+      let k ← k.toNat?
+      let va := a.toInt B
+      let m := va.natAbs % 2 ^ k
+      let opts := if va ≥ 0 then [fmtIntNF w (m : Int)] else [fmtIntNF w (-(m : Int)), fmtIntNF w (Int.fmod va (2 ^ k))]
+      some { model := opts.headD "", spec := opts, tags := ["mod_2b"] }
+    | _ => none
   | "bn_div_rem_dig" =>
     match args with
     | [_, a, d] => do
@@ -299,6 +321,19 @@ def handle (e : Env) (op : String) (args : List String) : Option Verdict :=
       let a ← parseBn w a
       let k ← k.toNat?
       some { model := toString (bnGetBit w a k), spec := [toString ((a.toInt B).natAbs >>> k % 2)] }
+    | _ => none
+  | "bn_set_bit" =>
+    match args with
+    | [a, k, v] => do
+      let a ← parseBn w a
+      let k ← k.toNat?
+      let m := (a.toInt B).natAbs
+      let has := (m >>> k) % 2 == 1
+      let m' := if v == "1" then (if has then m else m + 2 ^ k) else (if has then m - 2 ^ k else m)
+      let sv : Int := if (a.toInt B) < 0 then -(m' : Int) else (m' : Int)
+      -- setting a bit beyond the capacity is refused; clearing one there changes nothing
+      some { model := fmtBnOpt w (bnSetBit cfg a k (v == "1")),
+             spec := if v == "1" && k ≥ cfg.cap * w then ["err"] else [fmtIntNF w sv] }
     | _ => none
   | "bn_set_2b" =>
     match args with
